@@ -1029,6 +1029,9 @@ pub trait Revertable {
 pub struct Checkpoint {
     /// An index interpreted by a given `Revertable` implementation to revert to a prior point.
     pub index: usize,
+    /// Number of fact updates that were pending at the checkpoint (written but
+    /// not yet attached to a command), for implementations that track them.
+    pub pending: usize,
 }
 
 /// Can be queried to look up facts.
